@@ -290,6 +290,8 @@ def term_flats(t):
         return term_flats(t[2]) + [(t[1], t[2])]
     if k == 'concat':
         return []
+    if k == 'subq':             # a sub-query as an operand (implementation-side form only)
+        return [f for x in t[3:] for f in cond_flats(x)]
     raise ValueError(t)
 
 
@@ -328,6 +330,9 @@ def term_vars(t):
         return term_vars(t[2])
     if k == 'concat':
         return set()          # the operand's variable is aggregated away
+    if k == 'subq':
+        own = {t[2]} if isinstance(t[2], int) else term_vars(t[2])
+        return own.union(*[cond_vars(x) for x in t[3:]])
     raise ValueError(t)
 
 
